@@ -405,6 +405,45 @@ func runC02(c *vf.Case) {
 					_, _ = bb.Write(b)
 					bb.Commit(len(b))
 				}
+				if r.Chance(1, 3) && bb.WriteLen() == 0 {
+					// asynchronous flush with the beginning of the next message already written behind the committed part
+					// (not committed yet): when the flush completes those bytes are still in the buffer, in place
+					staged := bb.ReadLen()
+					tail := make([]byte, r.Range(1, 200))
+					vf.GenFill(tail, outGen, outAccepted+staged)
+					_, _ = bb.Write(tail)
+					wrInFlight, wrWake = true, 0
+					c.Logf("  ByteBuffer.AsyncWriteTo(conn) with %d bytes staged and %d more written but not committed", staged, len(tail))
+					bb.AsyncWriteTo(o.FD, func(err error, n int) {
+						wrInFlight = false
+						c.Logf("    <- ByteBuffer.AsyncWriteTo err=%v n=%d, %d+%d left", err, n, bb.ReadLen(), bb.WriteLen())
+						if n < 0 || n > staged {
+							c.Failf("bytebuffer-writeto-count-differs/"+kind.String(), "AsyncWriteTo with %d bytes staged reported n=%d err=%v", staged, n, err)
+							return
+						}
+						if err != nil {
+							// nothing is consumed on error: take out what did reach the transport, drop the rest on a dead peer
+							bb.Consume(n)
+							errCompletions++
+							if !errors.Is(err, sonicerrors.ErrCancelled) {
+								bb.Reset()
+							}
+						} else if n != staged || bb.ReadLen() != 0 {
+							c.Failf("bytebuffer-writeto-count-differs/"+kind.String(), "AsyncWriteTo completed without error with n=%d of %d staged bytes, %d still readable", n, staged, bb.ReadLen())
+							return
+						}
+						outAccepted += n
+						if err == nil || errors.Is(err, sonicerrors.ErrCancelled) {
+							if bb.WriteLen() != len(tail) {
+								c.Failf("bytebuffer-asyncwriteto-lost-uncommitted-bytes/"+kind.String(), "%d bytes had been written behind the flushed part and not committed; after the flush completed (err=%v) the write area holds %d", len(tail), err, bb.WriteLen())
+								return
+							}
+							bb.Commit(len(tail))
+						}
+						c.Count("bytebuffer_asyncwriteto_calls", 1)
+					})
+					break
+				}
 				staged := bb.ReadLen()
 				n64, err := bb.WriteTo(o.FD)
 				n := int(n64)
